@@ -147,6 +147,39 @@ def gram_orientation(chk, repo: Repo, rule: str, only: Optional[Set[str]] = None
     return count
 
 
+def same_orientation_application(chk, repo: Repo, rule: str) -> int:
+    """A square root applied twice in the SAME orientation, S @ (S @ v) or S.T @ (S.T @ v) (also through a single-use temporary: w = S @ v; S @ w), is
+    neither the precision S.T S nor the covariance S S.T applied to v; it coincides with them only for symmetric square roots (diagonal, scalar).
+    Decided on the views with temporaries substituted.  Returns the number of applied Gram products inspected."""
+    from .props.common import site, canon_fn
+    ga = repo.cls(f"{GA}:Gaussian")
+    count = 0
+    for kind, name, src in ga.all_functions():
+        try:
+            fn = canon_fn(repo, ga, src, 4)
+        except Exception:
+            fn = src
+        roles = None
+        for b, l, r, applied in _gram_sites(fn):
+            if not applied:
+                continue
+            lb, lt = _strip_T(l)
+            rb, rt = _strip_T(r)
+            if roles is None:
+                roles = _Roles(fn)
+            at = roles.g.stmt_node_containing(b)
+            rl, rr = roles.role(lb, at), roles.role(rb, at)
+            if rl is None or rl != rr:
+                continue
+            count += 1
+            label = f"Gaussian.{name}" + ("=" if kind == "setter" else "")
+            chk.add(rule, f"{GA}:{label}/applied@{unparse(l)}@{unparse(r)}", lt != rt, site(repo, src),
+                    "the square root and its transpose are applied (a Gram product)",
+                    f"`{unparse(b)[:70]}` applies the {rl} twice in the same orientation: S S v is neither the precision S^T S nor the covariance S S^T applied to v; "
+                    f"it agrees with them only for symmetric (diagonal / scalar) square roots, so the gradient of a Gaussian with correlated noise disagrees with its log-density", src)
+    return count
+
+
 def _orientation_free(roles: _Roles, fn, b: ast.BinOp) -> Optional[str]:
     """None if the Gram matrix `b` only reaches orientation-free sinks, else a reason."""
     par = getattr(b, "_parent", None)
